@@ -32,7 +32,7 @@ def teardown(ctx):
 def gen_cases(tier, seed):
     thorough = tier == "thorough"
     combos = [["bin"], ["cas"], ["dsk"], ["bin", "cas"], ["cas", "dsk"], ["bin", "cas", "dsk"], ["bin", "dsk"]]
-    n = 2000 if thorough else 140
+    n = 4000 if thorough else 140
     for k in range(n):
         r = rng(seed, "C11", k)
         org = r.choice([None, r.randrange(0, 256), r.randrange(256, 60000), 0x0E00, 0x3F00])
